@@ -1052,6 +1052,65 @@ def check_noise_reuse(case):
 
 
 # --------------------------------------------------------------------------------------
+# --------------------------------------------------------------------------------------
+# adaptive stepping of a stochastic equation (after missed seed C13-6): either refused with the
+# documented RuntimeError or the noise is really there - never silently the deterministic equation
+# --------------------------------------------------------------------------------------
+def adaptive_sde_cases():
+    return st.fixed_dictionaries({
+        "n_cells": st.integers(2, 5),
+        "variance": st.sampled_from([1.0, 0.1, 1e-3, 4.0]),
+        "family": st.sampled_from(["diffusion", "pde", "harness", "harness_numba"]),
+        "backend": st.sampled_from(["numba", "numba", "numpy", "auto"]),
+        "solver": st.sampled_from(["euler", "milstein"]),
+        "dt": st.sampled_from([None, 1e-3, 1e-2]),
+        "adaptive_arg": st.sampled_from([True, True, None]),  # None: left to the default of solve() without dt
+        "seed": st.integers(0, 2**31 - 1),
+    })
+
+
+def check_adaptive_sde(case):
+    n, var, seed = case["n_cells"], case["variance"], case["seed"]
+    grid = gg.build_grid({"cls": "unit", "shape": [n], "periodic": [True]})
+    state = ScalarField(grid, gg.rng_array(seed, grid.shape))
+
+    def build(noise):
+        if case["family"] == "diffusion":
+            return DiffusionPDE(0.1, bc=BC, noise=noise, rng=seed)
+        if case["family"] == "pde":
+            return PDE({"u": "-u"}, noise=noise, rng=seed)
+        cls = NumbaLocalSDE if case["family"] == "harness_numba" else LocalSDE
+        return cls(-1.0, 0.0, 0.0, 0.0, noise=noise, rng=seed)
+
+    kw = {"solver": case["solver"], "backend": case["backend"], "tracker": None}
+    if case["dt"] is not None:
+        kw["dt"] = case["dt"]
+    if case["adaptive_arg"] is not None:
+        kw["adaptive"] = True
+    elif case["dt"] is not None:
+        return {"nt": False, "labels": ["fixed-step (dt given, adaptive left at its default)"]}
+    labels = [f"family:{case['family']}", f"backend:{case['backend']}", f"solver:{case['solver']}",
+              "dt:given" if case["dt"] is not None else "dt:none",
+              "adaptive:explicit" if case["adaptive_arg"] else "adaptive:default"]
+    eq = build(var)
+    try:
+        res = eq.solve(state.copy(), t_range=0.05, **kw)
+    except RuntimeError as e:
+        if "adaptive" in str(e).lower() and "stochastic" in str(e).lower():
+            return {"nt": True, "labels": labels + ["refused (documented RuntimeError)"]}
+        raise
+    if not eq.diagnostics["solver"].get("dt_adaptive"):
+        return {"nt": False, "labels": labels + ["ran with a fixed step"]}
+    res0 = build(0).solve(state.copy(), t_range=0.05, **kw)
+    if np.array_equal(res.data, res0.data):
+        raise Violation(
+            f"stochastic equation ({case['family']}, variance {var}) solved with adaptive {case['solver']} on backend "
+            f"{case['backend']!r} (dt={case['dt']}): no error, and the result is bit-identical to the noise-free "
+            f"equation {res0.data.tolist()!r} - the documented noise sqrt(var*dt/V)*xi was never added "
+            f"(info['stochastic']={eq.diagnostics['solver'].get('stochastic')})", key="adaptive-sde:no-noise")
+    return {"nt": True, "labels": labels + ["ran adaptively with noise"]}
+
+
 def _sub(name, strategy, check, quick, thorough, shards, mode="nojit", rule="", tl=None):
     return SubCheck(name, strategy=strategy, check=check, mode=mode,
                     budget={"quick": quick, "thorough": thorough}, shards={"quick": shards[0], "thorough": shards[1]},
@@ -1086,6 +1145,12 @@ SUBCHECKS = [
     _sub("numba_components_independent_jit", lambda: independent_cases(families=("harness",), max_n=2),
          check_components_independent, 2, 30, (1, 2), mode="jit", tl={"quick": 100, "thorough": 1200},
          rule="numba backend compiled (tiny sample, harness equation without operators)"),
+    _sub("adaptive_sde_refused_or_noisy", adaptive_sde_cases, check_adaptive_sde, 150, 2000, (1, 2),
+         rule="stochastic equation + adaptive Euler/Milstein on every backend (numba interpreted): refused with the "
+              "documented RuntimeError, or the result differs from the noise-free run; non-trivial = refused or ran "
+              "adaptively"),
+    _sub("adaptive_sde_refused_or_noisy_jit", adaptive_sde_cases, check_adaptive_sde, 4, 40, (1, 2), mode="jit",
+         tl={"quick": 100, "thorough": 1200}, rule="the same with the numba backend compiled (tiny sample)"),
     _sub("noise_dict_reused", reuse_cases, check_noise_reuse, 120, 2000, (2, 2),
          rule="2-3 equations (PDE / ReactionDiffusionPDE) from one shared noise dict / list / array object, numpy "
               "backend; every case is non-trivial"),
